@@ -425,6 +425,41 @@ theorem drain_eq_triples (n : NMem) (pat : Pat) (req : Ctx) : n.drain pat req = 
             simp [h]
           simp [h, h']
 
+/-! ### the all-unbound shape: the yields are the start copy, whatever is interleaved -/
+
+theorem gyields_snap (pat : Pat) (req : Ctx) : ∀ (evs : List GEv) (hist : List NMem) (n : NMem) (l : List Triple),
+    (gyields hist n { pat := pat, req := req, started := true, work := l.map Work.snap } evs).map (fun y => y.1)
+      = l.take (gcountNext evs) := by
+  intro evs
+  induction evs with
+  | nil => intro hist n l; simp [gyields, gcountNext]
+  | cons ev es ih =>
+    intro hist n l
+    cases ev with
+    | mutate op => simp only [gyields, gcountNext]; exact ih _ _ l
+    | next =>
+      cases l with
+      | nil =>
+        simp only [gyields, gcountNext, NGen.next, NGen.workAt, List.map_nil, NMem.runGen, if_true, List.take_nil]
+        simpa using ih hist n ([] : List Triple)
+      | cons t r =>
+        simp only [gyields, gcountNext, NGen.next, NGen.workAt, List.map_cons, NMem.runGen, if_true, List.take_succ_cons]
+        rw [ih _ _ r]
+
+/-- the generator begins at this `next()` on the state `n` -/
+theorem gyields_fast (n : NMem) (g : Nat) (evs : List GEv) (hist : List NMem) :
+    (gyields hist n (NGen.new allPat (some g)) (.next :: evs)).map (fun y => y.1)
+      = (n.graph g).take (gcountNext evs + 1) := by
+  have hw : (NGen.new allPat (some g)).workAt n = (n.graph g).map Work.snap := rfl
+  cases hl : n.graph g with
+  | nil =>
+    simp only [gyields, NGen.next, hw, hl, List.map_nil, NMem.runGen, List.take_nil]
+    simpa [NGen.new] using gyields_snap allPat (some g) evs [n] n ([] : List Triple)
+  | cons t r =>
+    simp only [gyields, NGen.next, hw, hl, List.map_cons, NMem.runGen, List.take_succ_cons]
+    have := gyields_snap allPat (some g) evs [n] n r
+    simpa [NGen.new] using this
+
 /-! ### `triples_choices` -/
 
 theorem nodup_flatMap_disjoint {α β : Type} {l : List α} {f : α → List β} (hl : l.Nodup)
